@@ -6,7 +6,10 @@ from . import joint
 from .c03 import safe
 
 PROP = "C07"
-units = joint.units
+
+
+def units(tier, seed):
+    return joint.units(tier, seed, delim_in_prefix=True)
 
 
 def outcome(f, *a, **k):
